@@ -72,10 +72,71 @@ pub fn exercise(text: &str, idx: usize, workdir: &str, cli_every: usize, viols: 
     outcomes
 }
 
+/// The ledger a mutated price database is loaded next to: holdings in every commodity the seeds mention.
+const PRICE_LEDGER: &str = "commodity USD\n    format 1,000.00 USD\n\n2024/01/05 buy\n    Assets:E    10 EUR @ 1.1 USD\n    Assets:U\n\n2024/02/05 buy\n    Assets:J    1000 JPY\n    Assets:E    -6 EUR\n\n2024/03/05 * hold\n    Assets:C    3 CHF\n    Equity      -3 CHF\n";
+
+/// C06, price-database dimension: the text is a (mutated) price database; it is parsed on its own and
+/// loaded through `report::process` next to a fixed valid ledger, then every conversion query is asked.
+pub fn exercise_pricedb(text: &str, idx: usize, workdir: &str, viols: &mut Vec<Value>) -> Vec<String> {
+    let mut outcomes = Vec::new();
+    let dir = PathBuf::from(workdir).join(format!("tp{}_{}", std::process::id(), idx));
+    let _ = std::fs::remove_dir_all(&dir);
+    std::fs::create_dir_all(&dir).unwrap();
+    let dbpath = dir.join("prices.db");
+    std::fs::write(&dbpath, text).unwrap();
+    let files = vec![("/vr/main.ledger".to_string(), PRICE_LEDGER.to_string())];
+    let dbp = dbpath.clone();
+    match guarded(move || {
+        let arena = bumpalo::Bump::new();
+        let mut ctx = ReportContext::new(&arena);
+        let loader = fake_loader(&files, "/vr/main.ledger");
+        let out = match report::process(&mut ctx, loader, &report::ProcessOptions { price_db_path: Some(dbp) }) {
+            Ok(mut ledger) => {
+                let mut answered = 0usize;
+                for target in ["USD", "EUR", "JPY", "CHF"] {
+                    let Some(tc) = ctx.commodity(target) else { continue };
+                    for strategy in [query::ConversionStrategy::Historical,
+                                     query::ConversionStrategy::UpToDate { now: chrono::NaiveDate::from_ymd_opt(2024, 2, 15).unwrap() },
+                                     query::ConversionStrategy::UpToDate { now: chrono::NaiveDate::from_ymd_opt(2030, 1, 1).unwrap() }] {
+                        let q = query::BalanceQuery { conversion: Some(query::Conversion { strategy, target: tc }), date_range: query::DateRange::default() };
+                        match ledger.balance(&ctx, &q) { Ok(b) => { answered += b.into_owned().into_vec().len().min(1); } Err(e) => { let _ = format!("{}", e); } }
+                    }
+                    for d in [(2023, 12, 31), (2024, 1, 1), (2024, 2, 29), (2031, 1, 1)] {
+                        let ec = query::EvalContext { date: chrono::NaiveDate::from_ymd_opt(d.0, d.1, d.2).unwrap(), exchange: Some(target.to_string()) };
+                        match ledger.eval(&ctx, "(1 EUR + 2 JPY + 3 CHF + 4 USD)", &ec) { Ok(_) => answered += 1, Err(e) => { let _ = format!("{}", e); } }
+                    }
+                }
+                format!("process:ok:{}", answered)
+            }
+            Err(e) => { let m = format!("{}", e); if m.contains("parse") { "parse:err".to_string() } else { "process:err".to_string() } }
+        };
+        out
+    }) {
+        Err(p) => viols.push(viol(&format!("panic_process_price_db:{}", site(&p)), format!("report::process with the price database / conversion queries panicked: {}", p))),
+        Ok(o) => outcomes.push(o),
+    }
+    if idx % 10 == 0 {
+        let lp = dir.join("t.ledger");
+        std::fs::write(&lp, PRICE_LEDGER).unwrap();
+        let (ls, ds) = (lp.to_string_lossy().to_string(), dbpath.to_string_lossy().to_string());
+        for args in [vec!["balance", "--price-db", &ds, "-X", "USD", &ls], vec!["balance", "--price-db", &ds, "-X", "JPY", "--historical", &ls],
+                     vec!["register", "--price-db", &ds, "-X", "EUR", &ls]] {
+            let a: Vec<String> = args.iter().map(|s| s.to_string()).collect();
+            let name = a[..1].join(" ") + " --price-db -X " + &a[4];
+            match guarded(move || crate::report::cli(&a)) {
+                Err(pm) => viols.push(viol(&format!("panic_cli:{}", site(&pm)), format!("`okane {}` panicked: {}", name, pm))),
+                Ok(r) => outcomes.push(format!("cli {}:{}", name, if r.is_ok() { "ok" } else { "err" })),
+            }
+        }
+    }
+    let _ = std::fs::remove_dir_all(&dir);
+    outcomes
+}
+
 pub fn replay(idx: usize, rec: &Value, workdir: &str) -> Value {
     let text = concrete(rec["text"].as_str().unwrap());
     let mut viols = Vec::new();
-    let outcomes = exercise(&text, idx, workdir, 10, &mut viols);
+    let outcomes = if rec["kind"].as_str() == Some("pricedb") { exercise_pricedb(&text, idx, workdir, &mut viols) } else { exercise(&text, idx, workdir, 10, &mut viols) };
     let op = rec["op"].as_str().unwrap_or("");
     let mut classes = vec![format!("op_{}", op)];
     for o in &outcomes {
